@@ -9,9 +9,7 @@ use crate::execution::{ExecutionConfig, SharedMemoryPool};
 use crate::physical::operators::filter::evaluate_expr;
 use crate::physical::{PhysicalOperator, RecordBatchStream};
 use crate::planner::{Expr, JoinType};
-use arrow::array::{
-    ArrayRef, Date32Array, Float64Array, Int64Array, StringArray, UInt32Array, UInt64Array,
-};
+use arrow::array::{ArrayRef, Int64Array, UInt32Array, UInt64Array};
 use arrow::compute;
 use arrow::datatypes::{Schema, SchemaRef};
 use arrow::record_batch::RecordBatch;
@@ -1658,11 +1656,19 @@ impl ExternalSortExec {
                 let col_b = evaluate_expr(batch_b, &sort_expr.expr).ok();
 
                 if let (Some(a), Some(b)) = (col_a, col_b) {
-                    let cmp = compare_array_values(&a, row_a, &b, row_b);
-                    let cmp = if sort_expr.direction == crate::planner::SortDirection::Desc {
-                        cmp.reverse()
-                    } else {
-                        cmp
+                    // The runs were sorted by `sort_batch` with exactly these options; the
+                    // merge has to compare in that same order (direction, NULL placement,
+                    // Arrow's total order on floats, every sortable key type).
+                    let options = arrow::compute::SortOptions {
+                        descending: sort_expr.direction == crate::planner::SortDirection::Desc,
+                        nulls_first: matches!(
+                            sort_expr.nulls,
+                            crate::planner::NullOrdering::NullsFirst
+                        ),
+                    };
+                    let cmp = match arrow::array::make_comparator(a.as_ref(), b.as_ref(), options) {
+                        Ok(compare) => compare(row_a, row_b),
+                        Err(_) => Ordering::Equal,
                     };
                     if cmp != Ordering::Equal {
                         return cmp;
@@ -2011,62 +2017,6 @@ fn merge_parquet_files(
     let _ = std::fs::remove_file(new_file);
 
     Ok(())
-}
-
-/// Compare two array values at given indices
-fn compare_array_values(
-    a: &ArrayRef,
-    row_a: usize,
-    b: &ArrayRef,
-    row_b: usize,
-) -> std::cmp::Ordering {
-    use std::cmp::Ordering;
-
-    // Handle nulls
-    let a_null = a.is_null(row_a);
-    let b_null = b.is_null(row_b);
-
-    match (a_null, b_null) {
-        (true, true) => return Ordering::Equal,
-        (true, false) => return Ordering::Greater, // nulls last
-        (false, true) => return Ordering::Less,
-        (false, false) => {}
-    }
-
-    // Compare based on type
-    if let Some(arr_a) = a.as_any().downcast_ref::<Int64Array>() {
-        if let Some(arr_b) = b.as_any().downcast_ref::<Int64Array>() {
-            return arr_a.value(row_a).cmp(&arr_b.value(row_b));
-        }
-    }
-
-    if let Some(arr_a) = a.as_any().downcast_ref::<arrow::array::Int32Array>() {
-        if let Some(arr_b) = b.as_any().downcast_ref::<arrow::array::Int32Array>() {
-            return arr_a.value(row_a).cmp(&arr_b.value(row_b));
-        }
-    }
-
-    if let Some(arr_a) = a.as_any().downcast_ref::<Float64Array>() {
-        if let Some(arr_b) = b.as_any().downcast_ref::<Float64Array>() {
-            let va = arr_a.value(row_a);
-            let vb = arr_b.value(row_b);
-            return va.partial_cmp(&vb).unwrap_or(Ordering::Equal);
-        }
-    }
-
-    if let Some(arr_a) = a.as_any().downcast_ref::<StringArray>() {
-        if let Some(arr_b) = b.as_any().downcast_ref::<StringArray>() {
-            return arr_a.value(row_a).cmp(arr_b.value(row_b));
-        }
-    }
-
-    if let Some(arr_a) = a.as_any().downcast_ref::<Date32Array>() {
-        if let Some(arr_b) = b.as_any().downcast_ref::<Date32Array>() {
-            return arr_a.value(row_a).cmp(&arr_b.value(row_b));
-        }
-    }
-
-    Ordering::Equal
 }
 
 /// Partition a batch by hash of key columns
